@@ -147,7 +147,10 @@ func renameOverlayDir(p *eng.Prog, repo string, fns map[*ssa.Function]bool, dir 
 // swapEqOperands rewrites, in the files already written to dir, every `x == y`
 // / `x != y` inside the target functions to `y == x` / `y != x` (a second
 // neutral change: the rules must not depend on operand order).
+var msgs int
+
 func swapEqOperands(dir string, fns map[*ssa.Function]bool) (int, error) {
+	msgs = 0
 	names := map[string]bool{}
 	for fn := range fns {
 		top := eng.TopFunc(fn)
@@ -171,11 +174,41 @@ func swapEqOperands(dir string, fns map[*ssa.Function]bool) (int, error) {
 			return nil // leave the file as it is; the loader will report real errors
 		}
 		var es []edit
+		nMsg := 0
 		for _, d := range file.Decls {
 			fd, ok := d.(*ast.FuncDecl)
 			if !ok || fd.Body == nil || !names[fd.Name.Name] {
 				continue
 			}
+			// third neutral change: reword error and log messages (first string literal of fmt.Errorf,
+			// errors.New, ErrorResponse and logger calls)
+			ast.Inspect(fd.Body, func(nd ast.Node) bool {
+				ce, ok := nd.(*ast.CallExpr)
+				if !ok || len(ce.Args) == 0 {
+					return true
+				}
+				sel, ok := ce.Fun.(*ast.SelectorExpr)
+				if !ok {
+					return true
+				}
+				switch sel.Sel.Name {
+				case "Errorf", "ErrorResponse", "Error", "Warn", "Info", "Debug", "Trace":
+				case "New":
+					if id, ok := sel.X.(*ast.Ident); !ok || id.Name != "errors" {
+						return true
+					}
+				default:
+					return true
+				}
+				lit, ok := ce.Args[0].(*ast.BasicLit)
+				if !ok || lit.Kind != token.STRING || len(lit.Value) < 2 || lit.Value[0] != '"' {
+					return true
+				}
+				off := fset.Position(lit.End()).Offset - 1
+				es = append(es, edit{off, 0, " (reworded)"})
+				nMsg++
+				return true
+			})
 			ast.Inspect(fd.Body, func(nd ast.Node) bool {
 				be, ok := nd.(*ast.BinaryExpr)
 				if !ok || (be.Op != token.EQL && be.Op != token.NEQ) {
@@ -208,6 +241,7 @@ func swapEqOperands(dir string, fns map[*ssa.Function]bool) (int, error) {
 		for _, e := range es {
 			src = append(src[:e.off], append([]byte(e.s), src[e.off+e.n:]...)...)
 		}
+		msgs += nMsg
 		return os.WriteFile(path, src, 0o644)
 	})
 	return n, err
@@ -241,6 +275,7 @@ func renameTest(repo, id string, c *eng.Ctx, baseOpen map[string]bool) map[strin
 		var nsw int
 		nsw, err = swapEqOperands(dir, fns)
 		res["comparisons_swapped"] = nsw
+		res["messages_reworded"] = msgs
 	}
 	if err != nil {
 		res["outcome"] = "error: " + err.Error()
@@ -265,7 +300,7 @@ func renameTest(repo, id string, c *eng.Ctx, baseOpen map[string]bool) map[strin
 	res["false_alarms"] = alarms
 	if len(alarms) == 0 {
 		res["outcome"] = "silent"
-		fmt.Printf("SELFTEST property=%s neutral-rename of %d function(s), %d identifier(s): and swap of %v ==/!= comparison(s): silent (as required)\n", id, nf, nid, res["comparisons_swapped"])
+		fmt.Printf("SELFTEST property=%s neutral-rename of %d function(s), %d identifier(s): swap of %v ==/!= comparison(s), %v message(s) reworded: silent (as required)\n", id, nf, nid, res["comparisons_swapped"], res["messages_reworded"])
 	} else {
 		res["outcome"] = "alarmed"
 		fmt.Printf("SELFTEST property=%s neutral-rename of %d function(s): %d FALSE ALARM(S), first: %s\n", id, nf, len(alarms), alarms[0])
